@@ -239,7 +239,7 @@ class Session:
 
     # -- the property, restated on the implementation alone
     def fail(self, what, site, **kw):
-        case = {"what": what, "pinned": self.pinned, "script": [list(x) for x in self.log[-14:]]}
+        case = {"what": what, "pinned": self.pinned, "script": [list(x) for x in self.log[-40:]]}
         case.update(kw)
         self.oracle_fail.append((what, case, site))
 
@@ -565,6 +565,8 @@ def d2_mutations(sess, d2, rng, full, other_hello=None):
     variants = [
         ("resigned-by-attacker(announces itself)", W.make_server_hello(ak, srv.session_key.getPublicKey(), salt, tok)),
         ("resigned-by-attacker(announces root)", W.make_server_hello(ak, srv.session_key.getPublicKey(), salt, tok, announced=root)),
+        ("resigned-by-attacker(token high bit)", W.make_server_hello(ak, srv.session_key.getPublicKey(), salt, tok | 0x80000000)),
+        ("resigned-by-attacker(token 0, other salt)", W.make_server_hello(ak, srv.session_key.getPublicKey(), bytes(16), 0)),
         ("mitm(attacker eph, attacker sig, announces itself)", W.make_server_hello(ak, ek.getPublicKey(), salt, tok)),
         ("mitm(attacker eph, attacker sig, announces root)", W.make_server_hello(ak, ek.getPublicKey(), salt, tok, announced=root)),
         ("root-field-swapped(sig kept)", W.join_server_hello(body, ak.getPublicKey().getBytes(), payload, sig)),
@@ -954,6 +956,38 @@ def ctx_unit2(run, rng, n):
     return len(reqs)
 
 
+def replay(run, data):
+    """./check C02 --replay f : re-run the recorded script on a fresh session of the current /repo tree.
+    Datagrams in the script are replayed as bytes (ephemeral keys of a fresh session differ, so honest
+    sealed datagrams of the original run are forgeries here; clear attack datagrams replay exactly)."""
+    import json, logging
+    logging.disable(logging.CRITICAL)
+    W.init_ser_hdr()
+    install_logtap()
+    f = data.get("failure") or {}
+    case = f.get("case") or {}
+    sess = Session(run, pinned=case.get("pinned", True))
+    for step in case.get("script", []):
+        k = step[0]
+        if k == "connect":
+            sess.connect()
+        elif k == "adv":
+            sess.advance(step[1])
+        elif k == "stick":
+            sess.stick()
+        elif k == "ctick":
+            sess.ctick(bytes.fromhex(step[1]) if step[1] else None)
+        elif k == "srecv":
+            sess.srecv(bytes.fromhex(step[1]))
+    c, s = sess.C.impl.conn, sess.Sv.impl.conn
+    print(json.dumps({"recorded": f.get("what"), "replayed_failures": [x[0] for x in sess.oracle_fail],
+                      "client": [c.status.value if c else None, bool(c and c.session_key_bytes)],
+                      "server": [s.status.value, bool(s.session_key_bytes), int(s.token)],
+                      "connect_events": sess.connects, "model_differences": sess.check()}, indent=1)[:3000])
+    sess.close()
+    return 1 if sess.oracle_fail else 0
+
+
 def run(run):
     rng = run.rng
     full = run.thorough()
@@ -966,8 +1000,8 @@ def run(run):
     systematic_orders(run)
     run.exhaustive.append("every single loss / duplication / late duplication / adjacent swap of the three handshake "
                           "datagrams, pinned and unpinned")
-    schedules(run, rng, 1500 if full else 120)
+    schedules(run, rng, 6000 if full else 120)
     other = injections(run, rng, full)
-    attack_schedules(run, rng, 1500 if full else 100, other)
+    attack_schedules(run, rng, 6000 if full else 100, other)
     run.evaluations += run.dist.get("sessions", 0)
     logging.disable(logging.NOTSET)
